@@ -17,5 +17,14 @@ case "$1" in
   replay)   exec ./bin/emucheck replay "$2" ;;
   selftest) if [ -n "$2" ]; then exec ./bin/emucheck selftest -prop "$2"; else exec ./bin/emucheck selftest; fi ;;
   list)     exec ./bin/emucheck list ;;
-  *)        exec ./bin/emucheck check -prop "$1" -tier "${2:-${VERIF_TIER:-quick}}" ;;
+  *)        tier="${2:-${VERIF_TIER:-quick}}"
+            if [ "$tier" = thorough ]; then
+              # thorough = quick + overlay mutants (emucheck) + the committed regression corpora
+              # (independently seeded breaking changes must be reported, independent
+              # behaviour-preserving refactorings must stay silent), on scratch copies of /repo
+              ./bin/emucheck check -prop "$1" -tier thorough; rc=$?
+              [ $rc -ne 0 ] && exit $rc
+              exec python3 tools/corpus_check.py "$1"
+            fi
+            exec ./bin/emucheck check -prop "$1" -tier "$tier" ;;
 esac
